@@ -303,9 +303,15 @@ impl C19 {
             ctx.violation(&format!("{}:{}", arch, kind), json!({"elf": spec_json(&g, arch, base), "problem": what, "file_bytes": built.bytes.len()}));
         };
         let mut answers = Vec::new();
+        let query_first = rng.bool();
         for b in [0u64, base] {
             let loaded = guard(|| {
                 let mut elf = Elf::new(built.bytes.clone(), b).map_err(|e| format!("Elf::new: {}", e))?;
+                // entries may be asked for before user functions are added: the later answer must include them
+                if query_first {
+                    let _ = elf.function_entries();
+                    let _ = elf.memory();
+                }
                 for u in &g.user {
                     elf.add_user_function(*u);
                 }
@@ -668,7 +674,7 @@ impl C19 {
                 let _ = std::fs::remove_file(dir.join(&o.file));
             }
         };
-        let linker = match linked {
+        let mut linker = match linked {
             Err(pi) => {
                 ctx.panic_violation(&format!("{}:link", arch), &pi, describe(&objs));
                 cleanup(&objs, &self.dir);
@@ -756,6 +762,27 @@ impl C19 {
         if got_entries != want_entries {
             ctx.violation(&format!("{}:link:function_entries", arch), json!({"objects": describe(&objs), "missing": want_entries.difference(&got_entries).map(|x| format!("0x{:x}", x)).collect::<Vec<_>>(), "extra": got_entries.difference(&want_entries).map(|x| format!("0x{:x}", x)).collect::<Vec<_>>()}));
             return;
+        }
+        // user-supplied entries added after the first query must show up in the next one (and only they)
+        let users: Vec<u64> = (0..1 + rng.below(2)).map(|_| bases[0] + 0x40 + 4 * rng.below(64)).collect();
+        for u in &users {
+            linker.add_user_function(*u);
+        }
+        let mut want2 = want_entries.clone();
+        want2.extend(users.iter().cloned());
+        match linker.function_entries() {
+            Ok(v) => {
+                let got2: BTreeSet<u64> = v.iter().map(|f| f.address()).collect();
+                if got2 != want2 {
+                    ctx.violation(&format!("{}:link:function_entries_after_add_user_function", arch), json!({"objects": describe(&objs), "users": users.iter().map(|x| format!("0x{:x}", x)).collect::<Vec<_>>(),
+                        "missing": want2.difference(&got2).map(|x| format!("0x{:x}", x)).collect::<Vec<_>>(), "extra": got2.difference(&want2).map(|x| format!("0x{:x}", x)).collect::<Vec<_>>()}));
+                    return;
+                }
+            }
+            Err(e) => {
+                ctx.violation(&format!("{}:link:function_entries_error", arch), json!({"error": format!("{}", e)}));
+                return;
+            }
         }
         if linker.program_entry() != bases[0] + objs[0].spec.entry {
             ctx.violation(&format!("{}:link:program_entry", arch), json!({"got": format!("0x{:x}", linker.program_entry())}));
